@@ -189,9 +189,12 @@ def _res(r):
 def _mstate(o):
     ha = "[" + "; ".join(f"({_ename(h[0])}, mk_hs {_n(h[1])} {_attrs(h[2])} {_n(h[3][0])} {_n(h[3][1])} {_n(h[3][2])})" for h in o["ha"]) + "]"
     svcs = "[" + "; ".join(_ename(e) for e in o["svcs"]) + "]"
+    esvcs = "[" + "; ".join(_ename(e) for e in o["esvcs"]) + "]"
+    svcargs = "[" + "; ".join(_ename(e) for e in o["svcargs"]) + "]"
     glob = "[]" if o["gobj"] is None else f"[({T.GLOBAL_OBJ}, {_attrs(o['gobj'])})]"
     slots = "[" + "; ".join(f"({j}, {_pyval(p)})" for j, p in zip(T.SLOTS, o["slots"])) + "]"
-    return f"{{| ms_ha := {ha}; ms_svcs := {svcs}; ms_globals := {glob}; ms_slots := {slots} |}}"
+    return (f"{{| ms_ha := {ha}; ms_svcs := {svcs}; ms_esvcs := {esvcs}; ms_svcargs := {svcargs}; "
+            f"ms_globals := {glob}; ms_slots := {slots} |}}")
 
 
 def _vexpr(x):
@@ -241,7 +244,9 @@ def _step(s):
         x = s["x"]
         if x[0] == "set":
             return f"(SExt (XSet {_ename(x[1])} {_n(x[2])} {_attrs(x[3])}))"
-        return "(SExt (%s %s))" % ({"rm": "XRemove", "reg": "XReg", "unreg": "XUnreg"}[x[0]], _ename(x[1]))
+        if x[0] == "refresh":
+            return "(SExt XRefresh)"
+        return "(SExt (%s %s))" % ({"rm": "XRemove", "reg": "XReg", "unreg": "XUnreg", "regm": "XRegM"}[x[0]], _ename(x[1]))
     loc = "[" + "; ".join(f"({_n(i)}, {_attrs(a)})" for i, a in s.get("loc", [])) + "]"
     return f"(SScript {loc} {_op(s['op'])})"
 
@@ -253,11 +258,13 @@ def host_prelude():
     eqtab = "[" + "; ".join(f"({k}, {v})" for k, v in sorted(eq.items()) if k != v) + "]"
     enttab = "[" + "; ".join(f"(({e[0]}, {e[1]}), {i})" for e, i in sorted(T.ENTSTR.items())) + "]"
     vtrue, vfalse = T.CANON2ID[T.canon(True)], T.CANON2ID[T.canon(False)]
+    strattrs = "[" + "; ".join(str(i) for i in T.str_attr_idents()) + "]"
+    pyattrs = "[" + "; ".join(f"({v}, {i})" for v, i in T.py_attr_pairs()) + "]"
     return ("Local Open Scope N_scope.\n"
             f"Definition pv_strtab : list (N * N) := {strtab}.\n"
             "(* hypotheses of C16_refines for the shipped str() table (C16_host_tables) *)\n"
             "Definition pv_strtab_ok : strtab_ok pv_strtab = true := eq_refl.\n"
-            f"Definition pv_host : host := mk_host pv_strtab {eqtab} {enttab} {vtrue} {vfalse}.")
+            f"Definition pv_host : host := mk_host pv_strtab {eqtab} {enttab} {vtrue} {vfalse} {strattrs} {pyattrs}.")
 
 
 # ------------------------------------------------------------------------------------------------
@@ -298,7 +305,10 @@ def step_src(step):
             x = step["x"]
             if x[0] == "set":
                 return f"EXT hass.states.async_set({ename(x[1])!r}, {T.value_of(x[2])!r}, {dict((T.IDENT[k], T.value_of(v)) for k, v in x[3])!r})"
-            return {"rm": "EXT hass.states.async_remove", "reg": "EXT hass.services.async_register", "unreg": "EXT hass.services.async_remove"}[x[0]] + f"({ename(x[1])!r})"
+            if x[0] == "refresh":
+                return "EXT State.get_service_params()   # as at start-up / pyscript.reload"
+            return {"rm": "EXT hass.states.async_remove", "reg": "EXT hass.services.async_register", "unreg": "EXT hass.services.async_remove",
+                    "regm": "EXT register service with entity_id parameter"}[x[0]] + f"({ename(x[1])!r})"
         pre = "; ".join(f"{T.IDENT[i]} = obj({', '.join(f'{T.IDENT[k]}={T.value_of(v)!r}' for k, v in a)})" for i, a in step.get("loc", []))
         tag = f"[same body g{step['grp']}, nested {step.get('nest')}] " if step.get("grp") is not None else ""
         return tag + (pre + "; " if pre else "") + "; ".join(gen_core(step["op"])[0])
@@ -307,7 +317,7 @@ def step_src(step):
 
 
 PLAIN_VALUES = sorted(T.POOL)                       # ids of str/int/float/bool/list/dict pool values
-READ_ATTRS = T.ATTRS + [13, 101, 102, 103, 101, 102, 103, 120, 125, 10]
+READ_ATTRS = T.ATTRS + [13, 16, 24, 25, 101, 102, 103, 101, 102, 103, 120, 125, 10]
 STATE_ENTS = [e for e in T.ENTITIES if e[0] not in (T.GLOBAL_OBJ,)]
 
 
@@ -521,6 +531,38 @@ class StateVarStream(Stream):
             blk += reads()
         return blk
 
+    def _svc_block(self, rng, live):
+        """history of the entity-service table: entity services are registered / removed from outside, the table is
+        refreshed (State.get_service_params, as start-up and pyscript.reload do) at some points, and DOMAIN.entity.<service>
+        is read / asked for before and after: a removed last service of a domain, a removed one of two, a re-added one"""
+        out = []
+        dom = rng.choice([1, 1, 2])
+        ent = [dom, rng.choice([10, 11])] if dom == 1 else [2, 10]
+        cands = [list(e) for e in T.METHOD_SVCS if e[0] == dom]
+        out.append(X("set", ent, self._val(rng), self._attrs(rng, [20, 21] + ([rng.choice([13, 16])] if rng.random() < 0.3 else []))))
+        live.add(tuple(ent))
+
+        def probes():
+            res = []
+            for _ in range(rng.choice([1, 2, 3])):
+                k = rng.choice([13, 13, 16, 20])
+                res.append(rng.choice([S(["rd", ent + [k], None]), S(["exist", ent + [k]]), S(["get", ent + [k], None])]))
+            return res
+
+        for _ in range(rng.randint(3, 7)):
+            r = rng.random()
+            if r < 0.3:
+                out.append(X("regm", rng.choice(cands)))
+            elif r < 0.6:
+                out.append(X("unreg", rng.choice(cands)))
+            else:
+                out.append(X("refresh"))
+            if rng.random() < 0.7:
+                out += probes()
+        out.append(X("refresh"))
+        out += probes()
+        return out
+
     def _nest_block(self, rng, live, slots_used, gid):
         """several operations on the SAME dotted names in ONE function body that also contains a nested def / class /
         lambda / comprehension (or runs inside a nested function): assign then read, read then assign, attribute assign,
@@ -572,6 +614,10 @@ class StateVarStream(Stream):
                 steps += self._time_block(rng, live, slots_used)
             elif r < 0.10:
                 steps += self._nest_block(rng, live, slots_used, len(steps))
+            elif r < 0.13:
+                steps += self._svc_block(rng, live)
+            elif r < 0.15:
+                steps.append(rng.choice([X("refresh"), X("regm", list(rng.choice(T.METHOD_SVCS))), X("unreg", list(rng.choice(T.METHOD_SVCS)))]))
             elif r < 0.08 and any(s["t"] == "x" and s["x"][0] == "set" for s in steps):
                 steps.append(rng.choice([s for s in steps if s["t"] == "x" and s["x"][0] == "set"]))   # identical re-report
             elif r < 0.16:
@@ -612,7 +658,7 @@ class StateVarStream(Stream):
     def to_coq(self, case, obs):
         steps = "[" + ";\n    ".join(
             f"({_step(s)}, {{| o_res := {_res(o['res'])}; o_state := {_mstate(o)} |}})" for s, o in zip(case["steps"], obs[1:])) + "]"
-        return (f"{{| sc_svcargs := [({T.SVC_ARG[0]}, {T.SVC_ARG[1]})]; sc_init := {_mstate(obs[0])};\n   sc_steps := {steps} |}}")
+        return (f"{{| sc_init := {_mstate(obs[0])};\n   sc_steps := {steps} |}}")
 
     # ---- evidence ------------------------------------------------------------------------------
     def nontrivial(self, case, obs):
@@ -676,6 +722,24 @@ def _fixed_cases():
              + [X("set", e0, on, [])] + reads() + [S(["asg", e1, ["slot", 2]])] + [S(["rd", e1 + [103], None]), S(["rslota", 2, 103])])
     for mode in ("func", "live"):
         cases.append({"mode": mode, "legacy": mode == "live", "gobj": [[10, on]], "steps": times})
+    # entity-service table across refreshes; attribute names that are also str methods (count, title)
+    pl0 = [2, 10]
+    def probe(ent):
+        return [S(["rd", ent + [13], None]), S(["exist", ent + [13]]), S(["get", ent + [13], None]), S(["exist", ent + [16]]), S(["rd", ent + [16], None])]
+    svc = ([X("set", e0, on, [[20, one]]), X("set", pl0, on, [[13, off]])] + probe(e0) + probe(pl0)
+           + [X("regm", [2, 13]), X("regm", [1, 16])] + probe(e0) + probe(pl0) + [X("refresh")] + probe(e0) + probe(pl0)
+           + [X("unreg", [1, 16])] + probe(e0) + [X("refresh")] + probe(e0)
+           + [X("unreg", [2, 13])] + probe(pl0) + [X("refresh")] + probe(pl0)          # last entity service of domain pvl removed
+           + [X("unreg", [1, 13]), X("refresh")] + probe(e0) + [X("regm", [1, 13]), X("refresh")] + probe(e0))
+    strm = [X("set", e0, on, [[20, one]]), S(["exist", e0 + [24]]), S(["rd", e0 + [24], None]), S(["get", e0 + [24], None]), S(["rd", e0 + [25], None]),
+            S(["exist", e0 + [25]]), S(["asg", e0 + [24], ["lit", one]]), S(["exist", e0 + [24]]), S(["rd", e0 + [24], None]), S(["rd", e0, 0]),
+            S(["del", e0 + [24]]), S(["exist", e0 + [24]]), S(["rd", e0 + [24], None]), S(["rslota", 0, 24]), S(["rslota", 0, 25]), S(["rslota", 1, 24]),
+            S(["rd", [3, 10, 24], None]), S(["rd", [3, 11, 24], None]), S(["rd", [3, 11, 25], None]), X("reg", [1, 14]), X("set", [1, 14], on, []),
+            S(["rd", [1, 14, 24], None]), S(["exist", [1, 14, 24]]), S(["del", e0 + [24]]), S(["sattr", e0 + [25], off]), S(["exist", e0 + [25]]),
+            X("set", e0, on, []), S(["exist", e0 + [25]]), S(["exist", e0 + [24]])]
+    for mode in ("func", "live"):
+        cases.append({"mode": mode, "legacy": mode == "func", "gobj": [[10, on], [11, lst]], "steps": svc})
+        cases.append({"mode": mode, "legacy": mode == "live", "gobj": [[10, on], [11, lst]], "steps": strm})
     # several operations on the same dotted names in one function body containing a nested def/class/lambda/comprehension
     def grp(gid, nest, ops):
         return [dict(S(o), grp=gid, nest=nest) for o in ops]
@@ -709,7 +773,7 @@ class C16(Prop):
         "harness: generated script source (workers/c16_statevar.py), canonicalisation of values (workers/c16_sink.py), id tables (c16_tables.py)",
     ]
     assumptions = [
-        "identifiers used as domains/entity names/attributes are not Python builtins, not str methods, and not 'new_attributes'/'var_name'",
+        "identifiers used as domains/entity names/attributes are not Python builtins and not 'new_attributes'/'var_name'",
         "str() is idempotent and never None (host hypotheses of C16_refines; Example host_table_ok)",
         "scripts do not mutate list/dict attribute values in place and do not assign attributes on StateVal objects (outside C16's quantifier)",
     ]
